@@ -86,8 +86,10 @@ BASE10 = [ACK, NEXT1, PING, PONG, COMPLETE, ERROR1, NONJSON, UNKNOWN, MISSING, N
 # variants enumerated exhaustively in the quick tier as well
 NEXT_FALSY = [fj({"id": "1", "type": "next", "payload": {"data": d}}) for d in ({}, None, 0, "")]
 ERROR2 = fj({"id": "1", "type": "error", "payload": [ERR_MIN, ERR_EXTRA]})
+ERROR_EMPTY = fj({"id": "1", "type": "error", "payload": []})  # the error letter with no entries: still ends the stream
+ERROR_NOPAYLOAD = fj({"id": "1", "type": "error"})
 BADBYTES = fb("ff")
-BASE16 = BASE10 + NEXT_FALSY + [ERROR2, BADBYTES]
+BASE16 = BASE10 + NEXT_FALSY + [ERROR2, BADBYTES, ERROR_EMPTY, ERROR_NOPAYLOAD]  # (18 letters; the name is historical)
 
 VARIANT_LETTERS: List[Dict[str, Any]] = BASE16 + [
     fj({"type": "connection_ack", "payload": {"server": "x"}}),
@@ -192,7 +194,9 @@ def letter(spec: Dict[str, Any]) -> Tuple[str, Any]:
         if ty in ("ping", "pong", "complete"):
             return (ty, None)
         if ty == "error":
-            p = j.get("payload", "<absent>")
+            if "payload" not in j:
+                return ("error", [])  # an error message without payload: the error letter, no entries
+            p = j["payload"]
             if isinstance(p, list) and all(err_shaped(e) for e in p):
                 return ("error", p)
             return ("outside", None)
@@ -867,7 +871,7 @@ def oracle(case: Dict[str, Any], obs: Dict[str, Any]) -> List[Tuple[str, Optiona
         fail("connect-not-first-or-not-once")
         return fails
     c = evs[0][1]
-    if c["url"] != URL:
+    if c["url"] != case.get("url", URL):
         fail("connect-wrong-url", None, repr(c["url"]))
     if c["subprotocols"] != [SUBPROTOCOL]:
         fail("connect-wrong-subprotocol", None, repr(c["subprotocols"]))
@@ -2114,7 +2118,38 @@ SESSION_HDRS: List[Dict[str, Any]] = [
     {},                                                                  # 2: empty (falsy: `ws_headers or {}` replaces it)
     {"X-Trace": "t-1"},                                                  # 3: only new keys
     {"token": "abc", "auth": {"scopes": ["a", None], "n": 1}},           # 4: an init payload
+    {"token": "refreshed"},                                              # 5: the payload after a token refresh
 ]
+URL2 = "ws://other.test/graphql"
+
+
+def is_edit(st: Dict[str, Any]) -> bool:
+    """a session entry {"edit": "init"|"headers"|"origin"|"url", "to": ...} / {"edit": "write", "at": addr, "value": {...}}:
+    what the OWNER of the client does between two subscriptions (rebinding a public attribute, mutating a dict in place)"""
+    return "edit" in st
+
+
+def config_at(sess: Dict[str, Any], upto: int) -> Dict[str, Any]:
+    """the configuration current before entry `upto`: the constructor's, then ONLY the owner's edits (the oracle's own
+    statement - no subscription contributes anything).  `known` = the caller's dicts (+ the client's own `{}`)"""
+    import copy
+
+    ctor = sess["ctor"]
+    known = copy.deepcopy(sess["store"])
+    fresh = ctor["headers"] is None or not known[ctor["headers"]]
+    if fresh:
+        known.append({})
+    cfg = {"known": known, "headers": len(sess["store"]) if fresh else ctor["headers"], "origin": ctor["origin"] or None,
+           "init": ctor["init"], "url": ctor.get("url", URL), "fresh": fresh}
+    for st in sess["steps"][:upto]:
+        if not is_edit(st):
+            continue
+        if st["edit"] == "write":
+            known[st["at"]] = copy.deepcopy(st["value"])
+        else:
+            cfg[st["edit"]] = st["to"]
+    return cfg
+
 SESSION_SCRIPTS: List[List[Dict[str, Any]]] = [
     [ACK, NEXT1, COMPLETE],
     [ACK, NEXT1, PING, NEXT1, NEXT1],
@@ -2155,6 +2190,14 @@ def fixed_sessions() -> List[Dict[str, Any]]:
                        mk_step(frames=SESSION_SCRIPTS[6], take=0), mk_step()], init=4, label="session-fixed"),
         mk_session(3, [mk_step(extra=1, kwargs={"origin": "https://kw.test"}), mk_step(kwargs={"subprotocols": ["x"]}), mk_step(extra=1, vars_i=13),
                        mk_step(vars_i=5)], origin="", init=2, label="session-fixed"),
+        # the owner refreshes the token between subscriptions: rebinding, in-place mutation, removal
+        mk_session(0, [mk_step(), {"edit": "init", "to": 5}, mk_step(), {"edit": "write", "at": 5, "value": {"token": "third"}}, mk_step(),
+                       {"edit": "init", "to": None}, mk_step()], init=4, label="session-fixed"),
+        mk_session(None, [mk_step(), {"edit": "init", "to": 4}, mk_step(extra=1)], label="session-fixed"),
+        # ... and the headers / origin / url
+        mk_session(0, [mk_step(extra=1), {"edit": "write", "at": 0, "value": {"Authorization": "Bearer rotated"}}, mk_step(),
+                       {"edit": "headers", "to": 3}, mk_step(extra=1), {"edit": "origin", "to": "https://new.test"},
+                       {"edit": "url", "to": URL2}, mk_step()], origin="https://origin.test", label="session-fixed"),
     ]
 
 
@@ -2167,6 +2210,15 @@ def random_sessions(ctx: Ctx, n: int, label: str = "session") -> List[Dict[str, 
             r = rng.random()
             take = rng.choice([0, 1, 1, 2, 3]) if r < 0.25 else None
             refuse = "OSError" if 0.25 <= r < 0.33 else None
+            if steps and rng.random() < 0.3:
+                steps.append(rng.choice([
+                    {"edit": "init", "to": rng.choice([None, 4, 5, 2])},
+                    {"edit": "write", "at": rng.choice([4, 5]), "value": {"token": rng.choice(["t2", "t3"]), "n": rng.randint(0, 3)}},
+                    {"edit": "write", "at": rng.choice([0, 1, 3]), "value": {"Authorization": "Bearer rotated-%d" % rng.randint(0, 3)}},
+                    {"edit": "headers", "to": rng.choice([0, 1, 3, 2])},
+                    {"edit": "origin", "to": rng.choice([None, "https://new.test"])},
+                    {"edit": "url", "to": rng.choice([URL, URL2])},
+                ]))
             steps.append(mk_step(extra=rng.choice([None, None, 0, 1, 1, 2, 3]), frames=rng.choice(SESSION_SCRIPTS),
                                  kwargs=rng.choice(SESSION_KWARGS), vars_i=rng.choice([0, 0, 1, 2, 3, 5, 13]), take=take, refuse=refuse,
                                  op_name=rng.choice(["S", "S", None, ""])))
@@ -2178,12 +2230,15 @@ def random_sessions(ctx: Ctx, n: int, label: str = "session") -> List[Dict[str, 
 def session_line(sess: Dict[str, Any], client: str, tracer: bool, sched: Optional[List[int]] = None) -> Dict[str, Any]:
     steps = []
     for st in sess["steps"]:
+        if is_edit(st):
+            steps.append({**st, "value": wire.enc(st["value"])} if st["edit"] == "write" else dict(st))
+            continue
         steps.append({"query": QUERY, "opName": st["opName"], "extra": st["extra"], "kwargs": wire.enc(st["kwargs"]), "opId": OP_ID,
                       "vars": None if st["vars"] is None else [[k, pv_line(pv)] for k, pv in st["vars"]],
                       "frames": [frame_line(f) for f in st["frames"]], "refuse": st.get("refuse"), "take": st.get("take")})
     line: Dict[str, Any] = {"op": "session" if sched is None else "schedule", "client": client, "tracer": tracer,
                             "store": [wire.enc(d) for d in sess["store"]],
-                            "ctor": {"wsUrl": URL, "headers": sess["ctor"]["headers"], "origin": sess["ctor"]["origin"], "init": sess["ctor"]["init"]},
+                            "ctor": {"wsUrl": sess["ctor"].get("url", URL), "headers": sess["ctor"]["headers"], "origin": sess["ctor"]["origin"], "init": sess["ctor"]["init"]},
                             "steps": steps}
     if sched is not None:
         line["sched"] = sched
@@ -2288,7 +2343,7 @@ def observe_session(client: str, tracer: bool, sess: Dict[str, Any], sched: Opti
     before = copy.deepcopy(objs)
     ctor = sess["ctor"]
     cls = mod.AsyncBaseClient if client == "plain" else mod.AsyncBaseClientOpenTelemetry
-    ckw: Dict[str, Any] = dict(url="http://verif.test/graphql", http_client=_shared_http(), ws_url=URL,
+    ckw: Dict[str, Any] = dict(url="http://verif.test/graphql", http_client=_shared_http(), ws_url=ctor.get("url", URL),
                                ws_headers=None if ctor["headers"] is None else objs[ctor["headers"]], ws_origin=ctor["origin"])
     if ctor["init"] is not None:
         ckw["ws_connection_init_payload"] = objs[ctor["init"]]
@@ -2321,11 +2376,28 @@ def observe_session(client: str, tracer: bool, sess: Dict[str, Any], sched: Opti
         known_before = copy.deepcopy(known)
         changed_at: List[Any] = []
 
+        def apply_edit(st: Dict[str, Any]) -> None:
+            # what the owner of the client does, to the REAL client object / the REAL dicts
+            if st["edit"] == "init":
+                cl.ws_connection_init_payload = None if st["to"] is None else known[st["to"]]
+            elif st["edit"] == "headers":
+                cl.ws_headers = known[st["to"]]
+            elif st["edit"] == "origin":
+                cl.ws_origin = st["to"]
+            elif st["edit"] == "url":
+                cl.ws_url = st["to"]
+            elif st["edit"] == "write":
+                known[st["at"]].clear()
+                known[st["at"]].update(copy.deepcopy(st["value"]))
+
         async def sequential() -> None:
             for i, st in enumerate(sess["steps"]):
+                if is_edit(st):
+                    apply_edit(st)
+                    continue
                 current[0] = i
                 results[i] = await asyncio.wait_for(_session_step(cl, st, objs, per_step[i][0], per_step[i][1]), CASE_TIMEOUT)
-                if not changed_at and not common.same_json(known, known_before, ordered=True):
+                if not changed_at and not common.same_json(known, config_at(sess, i)["known"], ordered=True):
                     changed_at.append(i)
 
         async def interleaved() -> None:
@@ -2393,8 +2465,10 @@ def observe_session(client: str, tracer: bool, sess: Dict[str, Any], sched: Opti
             asyncio.run(sequential() if sched is None else interleaved())
         except asyncio.TimeoutError:
             hang = True
-        same_after = (cl.ws_headers is attrs_before[0] and cl.ws_origin == attrs_before[1]
-                      and cl.ws_connection_init_payload is attrs_before[2] and cl.ws_url == attrs_before[3])
+        def addr_of(o: Any) -> Any:
+            return None if o is None else next((i for i, k in enumerate(known) if k is o), "not-a-known-object")
+
+        after = {"wsHeaders": addr_of(cl.ws_headers), "url": cl.ws_url, "origin": cl.ws_origin, "init": addr_of(cl.ws_connection_init_payload)}
         store_after = copy.deepcopy(known)
     finally:
         mod.ws_connect = saved
@@ -2408,21 +2482,25 @@ def observe_session(client: str, tracer: bool, sess: Dict[str, Any], sched: Opti
         c = canon_observation(per_step[i][0], outcome, per_step[i][1])
         c["release"] = release
         obs.append(c)
-    return {"client": {"wsHeaders": ws_addr, "fresh": fresh, "same_after": same_after}, "store": store_after, "obs": obs,
+    return {"client": {"wsHeaders": ws_addr, "fresh": fresh, "after": after}, "store": store_after, "obs": obs,
             "store_before": known_before, "changed_at": changed_at[0] if changed_at else None}
 
 
 def session_case_of_step(sess: Dict[str, Any], i: int) -> Dict[str, Any]:
-    """the stand-alone case step i MEANS: the contents the objects had before the first call"""
-    st, ctor = sess["steps"][i], sess["ctor"]
-    cfg = {"headers": None if ctor["headers"] is None else dict(sess["store"][ctor["headers"]]), "origin": ctor["origin"],
-           "extraHeaders": "<absent>" if st["extra"] is None else dict(sess["store"][st["extra"]]), "kwargs": dict(st["kwargs"]),
-           "opName": st["opName"], "init": "<absent>" if ctor["init"] is None else sess["store"][ctor["init"]]}
-    return {"label": "session-step", "cfg": cfg, "vars": st["vars"], "frames": st["frames"]}
+    """the stand-alone case subscription i MEANS: the configuration the constructor and the owner's edits so far made"""
+    st, cur = sess["steps"][i], config_at(sess, i)
+    hdrs = cur["known"][cur["headers"]]
+    cfg = {"headers": dict(hdrs) if hdrs else None, "origin": cur["origin"],
+           "extraHeaders": "<absent>" if st["extra"] is None else dict(cur["known"][st["extra"]]), "kwargs": dict(st["kwargs"]),
+           "opName": st["opName"], "init": "<absent>" if cur["init"] is None else cur["known"][cur["init"]]}
+    return {"label": "session-step", "cfg": cfg, "vars": st["vars"], "frames": st["frames"], "url": cur["url"]}
 
 
 def alone_session(sess: Dict[str, Any], i: int) -> Dict[str, Any]:
-    return {**sess, "steps": [sess["steps"][i]]}
+    """subscription i as the ONLY one, on a fresh client built from the configuration current at that moment"""
+    cur = config_at(sess, i)
+    return {"kind": "session", "label": "alone", "store": cur["known"],
+            "ctor": {"headers": cur["headers"], "origin": cur["origin"], "init": cur["init"], "url": cur["url"]}, "steps": [sess["steps"][i]]}
 
 
 def obs3(o: Optional[Dict[str, Any]]) -> Any:
@@ -2433,17 +2511,19 @@ def session_oracle(client: str, tracer: bool, sess: Dict[str, Any], got: Dict[st
     """'Each socket is opened with the configured headers overridden by that call's extra_headers and nothing else; a call
     does not modify the configured state; calls are independent of history' - stated on the REAL client, without the model."""
     fails: List[Tuple[str, Optional[str], str]] = []
-    if not common.same_json(got["store"], got["store_before"], ordered=True):
-        diff = [i for i, (a, b) in enumerate(zip(got["store"], got["store_before"])) if not common.same_json(a, b, ordered=True)]
+    end = config_at(sess, len(sess["steps"]))  # the constructor's configuration + the owner's edits, nothing else
+    if not common.same_json(got["store"], end["known"], ordered=True):
+        diff = [i for i, (a, b) in enumerate(zip(got["store"], end["known"])) if not common.same_json(a, b, ordered=True)]
         who = ["the dict behind self.ws_headers" if i == got["client"]["wsHeaders"] else f"caller dict #{i}" for i in diff]
         fails.append(("call-modifies-configured-state", None,
                       f"{', '.join(who)} changed during subscription #{got['changed_at']}: {json.dumps([got['store'][i] for i in diff])[:200]} "
-                      f"was {json.dumps([got['store_before'][i] for i in diff])[:200]}"))
-    if not got["client"]["same_after"]:
-        fails.append(("call-rebinds-client-attributes", None, "ws_headers / ws_origin / ws_connection_init_payload / ws_url is another object afterwards"))
+                      f"should be {json.dumps([end['known'][i] for i in diff])[:200]}"))
+    want_after = {"wsHeaders": end["headers"], "url": end["url"], "origin": end["origin"], "init": end["init"]}
+    if got["client"]["after"] != want_after:
+        fails.append(("call-rebinds-client-attributes", None, f"client attributes afterwards {got['client']['after']}, the owner left {want_after}"))
     for i, st in enumerate(sess["steps"]):
         o = got["obs"][i]
-        if o is None:
+        if o is None or is_edit(st):
             continue
         if o["outcome"]["o"] == "hang":
             fails.append(("hang", None, f"subscription #{i}"))
@@ -2466,7 +2546,7 @@ def session_oracle(client: str, tracer: bool, sess: Dict[str, Any], got: Dict[st
             if hdrs == "<absent>" or dict(hdrs) != expected_headers(case["cfg"]):
                 fails.append(("connect-wrong-headers", None, f"subscription #{i} on the same client: socket opened with headers {json.dumps(hdrs)[:200]}, "
                                                              f"expected {json.dumps(expected_headers(case['cfg']))[:200]}"))
-            if c["url"] != URL or c["subprotocols"] != [SUBPROTOCOL] or c["origin"] != expected_origin(case["cfg"]):
+            if c["url"] != case["url"] or c["subprotocols"] != [SUBPROTOCOL] or c["origin"] != expected_origin(case["cfg"]):
                 fails.append(("connect-wrong-url-subprotocol-or-origin", None, f"subscription #{i}: {json.dumps(c, default=repr)[:200]}"))
         if st.get("refuse"):
             if [e[0] for e in o["events"]] != ["connect"] or o["outcome"] != {"o": "internal", "exc": st["refuse"]} or o["release"] != "not-opened":
@@ -2484,12 +2564,12 @@ def session_oracle(client: str, tracer: bool, sess: Dict[str, Any], got: Dict[st
     # independence of history: each subscription shows what it shows ALONE on a fresh client built from the same dicts
     if len(sess["steps"]) > 1:
         for i in range(len(sess["steps"])):
-            if got["obs"][i] is None:
+            if got["obs"][i] is None or is_edit(sess["steps"][i]):
                 continue
             alone = observe_session(client, tracer, alone_session(sess, i))["obs"][0]
             if not common.same_json(obs3(got["obs"][i]), obs3(alone)):
                 fails.append(("subscription-depends-on-history", None,
-                              f"subscription #{i} after {i} earlier one(s): {json.dumps(obs3(got['obs'][i]), default=repr)[:300]} "
+                              f"entry #{i} of the session (a subscription after earlier subscriptions / edits of the owner): {json.dumps(obs3(got['obs'][i]), default=repr)[:300]} "
                               f"alone: {json.dumps(obs3(alone), default=repr)[:300]}"))
     return fails
 
@@ -2512,6 +2592,8 @@ def shrink_session(client: str, tracer: bool, sess: Dict[str, Any], sig: str) ->
                 cur, changed = cand, True
                 break
     for i in range(len(cur["steps"])):
+        if is_edit(cur["steps"][i]):
+            continue
         simple = {**cur["steps"][i], "frames": list(SESSION_SCRIPTS[0]), "vars": None, "kwargs": {}, "take": None, "refuse": None}
         cand = {**cur, "steps": cur["steps"][:i] + [simple] + cur["steps"][i + 1:]}
         if still(cand):
@@ -2525,7 +2607,7 @@ def judge_sessions(ctx: Ctx, st: Optional[LeanStatus], sessions: List[Dict[str, 
     rng = ctx.sub_rng("schedules")
     for si, sess in enumerate(sessions):
         # every third session is also run interleaved (no abandoned steps there: `take` is a sequential notion)
-        if si % 3 == 0 and all(s.get("take") is None for s in sess["steps"]):
+        if si % 3 == 0 and all(not is_edit(s) and s.get("take") is None for s in sess["steps"]):
             order = [i for i in range(len(sess["steps"])) for _ in range(2)]
             rng.shuffle(order)
             scheds.append(order[: rng.randint(len(order) // 2, len(order))] if rng.random() < 0.3 else order)
@@ -2545,6 +2627,9 @@ def judge_sessions(ctx: Ctx, st: Optional[LeanStatus], sessions: List[Dict[str, 
         res.seen(["session", sess["store"], sess["ctor"], sess["steps"]], nontrivial=len(sess["steps"]) > 1)
         res.count("session:steps:%d" % len(sess["steps"]))
         for s_ in sess["steps"]:
+            if is_edit(s_):
+                res.count("session:edit:" + s_["edit"])
+                continue
             res.count("session:step:" + ("refused" if s_.get("refuse") else "abandoned" if s_.get("take") is not None else "whole")
                       + (":extra_headers" if s_["extra"] is not None else ""))
         for client, tracer in VARIANTS:
@@ -2578,11 +2663,12 @@ def judge_sessions(ctx: Ctx, st: Optional[LeanStatus], sessions: List[Dict[str, 
                     add_mismatch(res, Mismatch("session", inp, "runs", m))
                 else:
                     dm = decode_session_model(m)
-                    have = {"client": got["client"], "store": got["store"], "obs": [obs3(o) for o in got["obs"]]}
+                    have = {"client": got["client"], "store": got["store"],
+                            "obs": [obs3(o) for o, s_ in zip(got["obs"], sess["steps"]) if not is_edit(s_)]}
                     want = {"client": dm["client"], "store": dm["store"], "obs": dm["obs"]}
                     if not common.same_json(have, want):
-                        regions = [k for i in range(len(sess["steps"])) for k, v in triggers(session_case_of_step(sess, i)).items()
-                                   if v and k != "extraHeadersKwarg"]
+                        regions = [k for i in range(len(sess["steps"])) if not is_edit(sess["steps"][i])
+                                   for k, v in triggers(session_case_of_step(sess, i)).items() if v and k != "extraHeadersKwarg"]
                         add_mismatch(res, Mismatch("session", inp, have, want, trigger=regions[0] if regions and all(t is not None for _, t, _ in fails) else None))
             if sched is not None:
                 try:
@@ -2722,12 +2808,13 @@ def run(ctx: Ctx, st: Optional[LeanStatus]) -> Result:
         "generated subscription method driven with all / only required / mixed arguments on two scripts. "
         "Plus SESSIONS: 7 fixed + seeded random sequences of 1..5 execute_ws calls on ONE real client object per variant (constructor dict "
         "None / empty / non-empty, per-call extra_headers absent / own dict / dict shared between calls / the constructor's dict itself, "
-        "whole, failing, refused and abandoned (aclose after 0..3 items) subscriptions), a third of them also interleaved under a seeded "
+        "whole, failing, refused and abandoned (aclose after 0..3 items) subscriptions, and the OWNER'S edits in between: ws_connection_init_payload / "
+        "ws_headers / ws_origin / ws_url rebound, the referenced dicts mutated in place), a third of the edit-free ones also interleaved under a seeded "
         "schedule; a session is non-trivial when it has more than one subscription. "
         "A case is non-trivial when the handshake completes and at least one frame reaches the streaming loop; distinct = distinct "
         "(configuration, variables, frame list)."
-        % ((("10-letter alphabet (length 5) and the 16-letter variant alphabet (length 3)", 5) if ctx.thorough
-            else ("16-letter alphabet (10 letters + falsy-data/2-error/bad-bytes variants)", 3)) + (len(VARIANT_LETTERS),))
+        % ((("10-letter alphabet (length 5) and the 18-letter variant alphabet (length 3)", 5) if ctx.thorough
+            else ("18-letter alphabet (10 letters + falsy-data/2-error/bad-bytes/empty-payload-error/missing-payload-error variants)", 3)) + (len(VARIANT_LETTERS),))
     )
     res.extra["exhaustive_sequences"] = len(ex)
     res.oracle_only += [
@@ -2792,7 +2879,12 @@ def replay(ctx: Ctx, payload: Dict[str, Any]) -> int:
             got = observe_session(client, tracer, sess)
             fails = session_oracle(client, tracer, sess, got)
             for i, o in enumerate(got["obs"]):
+                if is_edit(sess["steps"][i]):
+                    print(f"{client} {'tracer' if tracer else '-'} entry #{i}: the owner edits the client: {json.dumps(sess['steps'][i])[:200]}")
+                    continue
                 conn = [e[1] for e in (o or {}).get("events", []) if e[0] == "connect"]
+                init = [e[1] for e in (o or {}).get("events", []) if e[0] == "send"][:1]
+                print(f"{client} {'tracer' if tracer else '-'} entry #{i}: first message sent {json.dumps(init)[:160]}")
                 print(f"{client} {'tracer' if tracer else '-'} subscription #{i}: extra_headers={json.dumps(sess['steps'][i]['extra'])} -> socket headers "
                       f"{json.dumps(conn[0]['extra_headers']) if conn else None} outcome {json.dumps((o or {}).get('outcome'), default=repr)[:120]}")
             print(f"{client} {'tracer' if tracer else '-'} caller dicts afterwards: {json.dumps(got['store'])[:300]}")
